@@ -211,7 +211,7 @@ Definition final (g : gst) (j : nat) : Prop :=
 Definition creating (p : pc) : option nat :=
   match p with
   | CStChmod1 _ i | CStWrite _ i | CStChmod2 _ i | CRes _ i | CDyOpen _ i | CDyTrunc _ i | CDyFstat _ i
-  | CDyInit _ i | CDyChmod _ i => Some i
+  | CDyInit _ i | CDyChmod _ i | CPanicRmStatic _ i => Some i
   | _ => None
   end.
 
